@@ -11,6 +11,9 @@ GROUPS = ["ASP", "GLU", "HIS", "CYS", "TYR", "LYS", "ARG"]
 TITR = {"ASP": ("ASH", "below"), "GLU": ("GLH", "below"), "HIS": ("HIP", "below"), "CYS": ("CYM", "above"),
         "TYR": ("TYM", "above"), "LYS": ("LYN", "above"), "ARG": ("AR0", "above"), "N+": ("NEUTRAL-NTERM", "above"),
         "C-": ("NEUTRAL-CTERM", "below")}
+# the group type PROPKA itself reports for each kind of row (its C-terminus group is of type COO)
+PROPKA_TYPE = {"ASP": "COO", "GLU": "COO", "HIS": "HIS", "CYS": "CYS", "TYR": "TYR", "LYS": "LYS", "ARG": "ARG",
+               "N+": "N+", "C-": "COO"}
 STUB = {"table": None, "installed": False, "orig": None, "titration_log": []}
 
 
@@ -97,7 +100,7 @@ def make_table(truth, rng, ph, forced=None):
                 pka = {"random": ph - rng.uniform(0.01, 6), "equal": ph, "eps": ph - 1e-9}[rel]
             lab = label(g if g in ("N+", "C-") else t["resn"], t["resi"], t["chain"])
             rows.append({"res_num": t["resi"], "ins_code": t.get("icode") or " ", "res_name": t["resn"], "chain_id": t["chain"],
-                         "group_label": lab, "group_type": None, "pKa": pka, "model_pKa": pka, "buried": 0.0,
+                         "group_label": lab, "group_type": PROPKA_TYPE.get(g), "pKa": pka, "model_pKa": pka, "buried": 0.0,
                          "coupled_group": None})
             groups.append({"group": g, "k": k, "side": side, "rel": rel, "pka": pka})
     return rows, groups
